@@ -342,6 +342,8 @@ def command_cases(draw, command=None):
         "dimension": draw(st.sampled_from([None, "station", "obs"])),
         "format": draw(st.sampled_from(["geojson", "wkt", "wkb", "shapefile", "auto.geojson",
                                         "auto.json", "auto.wkt", "auto.wkb", "auto.shp"])),
+        "explicit_extension": draw(st.sampled_from([".out", "", ".geojson", ".json", ".wkt", ".wkb",
+                                                    ".shp", ".txt"])),
         "failure": draw(st.sampled_from(["miss_error", "unknown_extension", "unknown_extension",
                                          "bad_format", "bad_geometry", "missing_input"])),
         "unknown_extension": draw(st.sampled_from([".xyz", ".topojson", ".ndjson", ".txt", "", ".nc",
@@ -468,8 +470,9 @@ def check_command(case, ctx):
         else:
             fmt = case["format"]
             explicit = not fmt.startswith("auto.")
-            ext = {"geojson": ".out", "wkt": ".out", "wkb": ".out", "shapefile": ".out"}.get(fmt) \
-                if explicit else "." + fmt.split(".")[1]
+            # with an explicit format the extension says nothing: a neutral one, none, or the
+            # usual extension of ANOTHER format
+            ext = case.get("explicit_extension", ".out") if explicit else "." + fmt.split(".")[1]
             kind = fmt if explicit else {"geojson": "geojson", "json": "geojson", "wkt": "wkt",
                                          "wkb": "wkb", "shp": "shapefile"}[fmt.split(".")[1]]
             target = os.path.join(tmp, "cli_geom" + ext)
@@ -496,8 +499,12 @@ def check_command(case, ctx):
                     a, b = a[4:], b[4:]        # the dBase header starts with the date of writing
                 ctx.check(a == b, "C20.export_equals_library",
                           lambda: f"export-geometry {kind}: {name} differs from the file the library writes")
-            nontrivial = not explicit
-            ctx.label("command:export-geometry:" + ("guessed" if not explicit else "explicit"))
+            usual = {".geojson": "geojson", ".json": "geojson", ".wkt": "wkt", ".wkb": "wkb",
+                     ".shp": "shapefile"}.get(ext)
+            contradicts = explicit and usual is not None and usual != kind
+            nontrivial = not explicit or contradicts
+            ctx.label("command:export-geometry:" + ("guessed" if not explicit else
+                                                    "explicit_against_extension" if contradicts else "explicit"))
     ctx.label("conv:" + spec["conv"])
     ctx.nontrivial(nontrivial)
 
